@@ -9,6 +9,7 @@ from qvlib.paths import Flow, agg_sites
 from rules import c04, c05, c14, census
 
 CRATES = None
+OPTIONAL_FNS = ("Worker::notify_result", "Worker::deliver_message", "Worker::update_program")      # private Worker helpers that may be inlined into their only caller
 W = "quiver_environment::worker::Worker"
 E = "quiver_environment::environment::Environment"
 EXEC = "quiver_core::executor::Executor"
@@ -43,6 +44,10 @@ def r2_error_writes(ctx):
     F = ctx.facts
     allowed_result = {EXEC + "::spawn_process", EXEC + "::notify_effect_completion", EXEC + "::step", W + "::notify_result"}
     allowed_clear = {EXEC + "::notify_effect_completion", EXEC + "::step", W + "::notify_result"}
+    if (W + "::notify_result") not in F.fns:
+        # the private helper was inlined by hand into its only caller: the reviewed write now lives there
+        allowed_result.add(W + "::update_await_results")
+        allowed_clear.add(W + "::update_await_results")
     n = 0
     for body in F.bodies():
         if body.fn["crate"] not in ("quiver_core", "quiver_environment", "quiv", "quiver_io", "quiver_web", "quiver_cli"):
